@@ -160,6 +160,99 @@ def fresh_fields(rec, item):
 
 
 # ----------------------------------------------------------------------------- (c) seed independence of the deterministic engine
+def no_stale_state(rec, item):
+    """After any earlier simulation, a new set-up + iteration must not USE process-lifetime storage (globals, function-local
+    statics such as cached distribution objects or scratch buffers) that was last written by the earlier simulation."""
+    opt1, sd1, opt2, sd2, isp = item
+    desc = "process-lifetime storage: %s/%s (%s) after %s/%s" % (opt2, sd2[0], isp, opt1, sd1[0])
+    rec.structure(desc)
+    s1 = catalogue.build("ABC_bi", sd1)
+    s1.state = [150.0 + 10 * k for k in range(3 * s1.space.size())]
+    s2 = catalogue.build("AB_rev", sd2)
+    s2.state = [120.0 + 7 * k for k in range(2 * s2.space.size())]
+    k1, n1, _ = record_setup(make_script(s1, opt1, 0.125, isp=isp, seed=11, policy="on_iteration"), opt1)
+    k2, n2, _ = record_setup(make_script(s2, opt2, 0.125, isp=isp, seed=22, policy="on_iteration"), opt2)
+    stale = []
+    npaths = 0
+
+    def body(I):
+        I.check_lib_pre = False
+        initialize(I, k1, n1)
+        I.call_fn("engineexport_iterate", [])
+        I.call_fn("engineexport_finalize", [])
+        mark = len(I.stale_reads)
+        try:
+            initialize(I, k2, n2)
+            I.call_fn("engineexport_iterate", [])
+            I.call_fn("engineexport_finalize", [])
+        finally:
+            stale.extend(I.stale_reads[mark:])
+        return True
+    for pr in explore(program(), body, max_paths=12, budget_s=90, unwind=3):
+        if pr.I is not None:
+            npaths += 1
+            _collect_safety(rec, pr.I, desc)
+    uniq = sorted(set(stale))
+    rec.oblig("a new set-up and its iterations never use a global or function-local static last written by an earlier simulation", "holds" if not uniq else "violated", uniq[:5], 0, desc)
+    rec.vacuity_witness(desc, npaths > 0, "%d paths" % npaths)
+    if uniq:
+        rp = _replay_history_dependence()
+        rec.violation("stale-process-state:%s" % uniq[0][0], "engine code uses %s '%s' (%s) whose value was left behind by a previous simulation: results depend on what ran earlier in the process; real build: %s"
+                      % (uniq[0][2], uniq[0][0], uniq[0][1], rp[1]), {"structure": desc, "stale": [list(u) for u in uniq]}, replayed=rp[0])
+
+
+_hist = {}
+
+
+def _replay_history_dependence():
+    """real build, child processes: the same script/seed run (a) first in a fresh process, (b) after another simulation: bit-identical?"""
+    if "r" in _hist:
+        return _hist["r"]
+    import os
+    import subprocess
+    import sys
+    from ..common import scratch, SRC, VERIF
+    code = r'''
+import sys
+sys.path.insert(0, %r); sys.path.insert(0, %r)
+from strengths import *
+from vt.glue import real_engine
+def run(opt, nsp, ncell, seed, base):
+    net = RDNetwork(species=[Species(chr(65 + k), D=1) for k in range(nsp)], reactions=[Reaction("A -> B", kf=1, kr=1)] * (1 if nsp > 1 else 0) + [Reaction("B -> A", kf=0.5)] * (nsp - 1))
+    s = RDSystem(net, RDGridSpace(w=ncell, h=1, d=1, cell_vol=1), state=[base + 13 * k for k in range(nsp * ncell)])
+    e = real_engine(opt)
+    e.setup(RDScript(s, [0, 0.01], rng_seed=seed, time_step=0.005))
+    while e.iterate():
+        pass
+    o = e.get_output(); e.finalize()
+    return [float(v) for v in o.data.value] + [float(v) for v in o.t.value]
+hist = sys.argv[1]
+if hist == "1":
+    run("tauleap", 3, 3, 5, 140.0); run("euler", 2, 2, 1, 10.0)
+if hist == "2":
+    run("gillespie", 2, 5, 9, 300.0); run("euler", 3, 1, 1, 10.0); run("tauleap", 2, 3, 4, 500.0)
+out = []
+for opt in ("tauleap", "gillespie", "euler"):
+    out.append(run(opt, 3, 2, 77, 120.0))
+print(repr(out))
+''' % (SRC, VERIF)
+    path = os.path.join(scratch(), "history_dep.py")
+    open(path, "w").write(code)
+    outs = []
+    crashed = False
+    for h in ("0", "1", "2"):
+        try:
+            r = subprocess.run([sys.executable, path, h], capture_output=True, text=True, timeout=120, env=dict(os.environ, VERIF_SHARED_SCRATCH=scratch()))
+            if r.returncode != 0:
+                crashed = True
+            outs.append(r.stdout.strip().splitlines()[-1] if r.stdout.strip() else "crash:%d" % r.returncode)
+        except subprocess.TimeoutExpired:
+            outs.append("timeout")
+    ok = crashed or len(set(outs)) > 1
+    _hist["r"] = (ok, "same script and seed after different histories: %s" % ("results differ or the process crashed" if ok else "identical results"))
+    return _hist["r"]
+
+
 def euler_no_draws(rec, item):
     sd = item
     desc = "euler draws on %s" % ("grid" if sd[0] == "grid" else "graph")
@@ -222,7 +315,9 @@ def real_repeats(rec):
 
 
 def _work(rec, item):
-    if item[0] == "drivers":
+    if item[0] == "stale":
+        no_stale_state(rec, item[1:])
+    elif item[0] == "drivers":
         drivers(rec, item[1:])
     elif item[0] == "fresh":
         fresh_fields(rec, item[1:])
@@ -246,6 +341,11 @@ def run(rec):
             items.append(("fresh", option, sd, ("gillespie", ("graph", "triangle"), 2, True)))
             items.append(("fresh", option, sd, ("euler", ("grid", 2, 2, 1, 4), 1, False)))
     items += [("nodraw", ("grid", 2, 1, 1, 1)), ("nodraw", ("graph", "triangle"))]
+    for (o1, sd1, o2, sd2) in ((("tauleap", ("grid", 2, 1, 1, 0), "gillespie", ("grid", 2, 1, 1, 1))), ("gillespie", ("graph", "pair"), "tauleap", ("graph", "pair")),
+                               ("euler", ("grid", 2, 1, 1, 0), "euler", ("grid", 2, 1, 1, 1)), ("euler", ("graph", "pair"), "euler", ("graph", "triangle")),
+                               ("tauleap", ("grid", 2, 1, 1, 0), "euler", ("graph", "pair")), ("euler", ("grid", 1, 1, 1, 0), "tauleap", ("grid", 2, 2, 1, 4))):
+        for isp in ("auto", "none"):
+            items.append(("stale", o1, sd1, o2, sd2, isp))
     rec.parallel(_work, items)
     real_repeats(rec)
     from . import C08_py
